@@ -4699,8 +4699,9 @@ class ResponseFuture(object):
             self._connection = connection
             result_meta = self.prepared_statement.result_metadata if self.prepared_statement else []
 
-            if cb is None:
-                cb = partial(self._set_result, host, connection, pool)
+            # the handler gives back the connection this message is sent on (for the PREPARE
+            # of a re-prepare that is not necessarily the one the EXECUTE was sent on)
+            cb = partial(cb or self._set_result, host, connection, pool)
 
             self.request_encoded_size = connection.send_msg(message, request_id, cb=cb,
                                                             encoder=self._protocol_handler.encode_message,
@@ -4800,7 +4801,8 @@ class ResponseFuture(object):
         self.send_request()
 
     def _reprepare(self, prepare_message, host, connection, pool):
-        cb = partial(self.session.submit, self._execute_after_prepare, host, connection, pool)
+        # _query() completes the callback with the host, connection and pool of the PREPARE
+        cb = partial(self.session.submit, self._execute_after_prepare)
         request_id = self._query(host, prepare_message, cb=cb)
         if request_id is None:
             # try to submit the original prepared statement on some other host
